@@ -57,10 +57,11 @@ func bedTruncate(it bedItem) bedItem {
 func bedRead(data []byte) (items []bedItem, panicked bool) {
 	items = []bedItem{}
 	panicked, _ = catch(func() {
-		if failedReadsFirst {
-			for _, t := range malformedTexts["bed"] {
-				for range bed.Reader(strings.NewReader(t)) {
-				}
+		if failedReadsFirst { // (one malformed text before each recorded read, in turn: a pool hands back what was put last)
+			ts := malformedTexts["bed"]
+			t := ts[malformedNext%len(ts)]
+			malformedNext++
+			for range bed.Reader(strings.NewReader(t)) {
 			}
 		}
 		for b, err := range bed.Reader(deliver(data)) {
